@@ -53,8 +53,33 @@ pub fn to_miette_report_with_formatter(
 ) -> miette::Report {
     let sanitized_source = sanitize_terminal_snippet_preserve_len(source.to_owned());
     let src = Arc::new(NamedSource::new(file, sanitized_source));
-    let diag = build_diagnostic(err.without_snippet(), src, formatter);
+    let mut diag = build_diagnostic(err.without_snippet(), src, formatter);
+    sanitize_diagnostic(&mut diag);
     miette::Report::new(diag)
+}
+
+/// Messages and labels can reflect text of the input; neutralise control characters in them
+/// like in the source itself.
+fn sanitize_diagnostic(diag: &mut ErrorDiagnostic) {
+    use crate::de_snipped::is_terminal_snippet_clean;
+    if !is_terminal_snippet_clean(&diag.message) {
+        diag.message = sanitize_terminal_snippet_preserve_len(std::mem::take(&mut diag.message));
+    }
+    for label in &mut diag.labels {
+        let Some(text) = label.label() else { continue };
+        if is_terminal_snippet_clean(text) {
+            continue;
+        }
+        let clean = sanitize_terminal_snippet_preserve_len(text.to_owned());
+        *label = if label.primary() {
+            LabeledSpan::new_primary_with_span(Some(clean), *label.inner())
+        } else {
+            LabeledSpan::new_with_span(Some(clean), *label.inner())
+        };
+    }
+    for related in &mut diag.related {
+        sanitize_diagnostic(related);
+    }
 }
 
 #[derive(Clone, Debug)]
